@@ -77,7 +77,8 @@ MetaVerdict(r) ==
       after == SelectSeq(r.toks, LAMBDA t : r.metaEnd # 0 /\ t.s >= r.metaEnd)
       v0 == ReadVerdict(r, r.wit0, before)
       v1 == ReadVerdict(r, r.wit1, after)
-  IN IF r.nenc > (IF r.metaEnd = 0 \/ r.same THEN 1 ELSE 2) THEN "C13: the encoding was switched more than once"
+  IN IF r.res # "ok" THEN "C13: a run with observers only failed: " \o r.res
+     ELSE IF r.nenc > (IF r.metaEnd = 0 \/ r.same THEN 1 ELSE 2) THEN "C13: the encoding was switched more than once"
      ELSE IF r.metaEnd # 0 /\ ~r.same /\ r.nenc # 2 THEN "C13: a meta charset declaration did not switch the encoding (or the sink was not notified)"
      ELSE IF r.metaEnd # 0 /\ ~r.same /\ r.switchAfterOutput THEN "C13: output in the new encoding reached the sink before set_encoding"
      ELSE IF v0 # "ok" THEN v0 \o " (before the meta tag)"
@@ -94,6 +95,7 @@ Verdict(r) ==
     [] r.kind = "config" ->
          IF r.accepted = (r.label \notin NonAsciiCompatible) THEN "ok" ELSE "C13: (non-)ASCII-compatible encoding accepted / refused wrongly at configuration time"
     [] r.kind = "meta" -> MetaVerdict(r)
+    [] r.kind = "failed" -> "C13: a run with observers only failed: " \o r.res
 
 TInit == l = 1 /\ nbad = 0
 TNext == /\ l <= Len(Rec)
